@@ -97,8 +97,21 @@ def _round_increment(check: Check, mth: FuncInfo):
     # the counter moves last: nothing that can fail (fetching the clients, drawing from the stream) runs after it, otherwise an
     # exception leaves the sampler one round ahead and a retry / restart does not reproduce the round
     inc = incs[0]
+    def may_fail(x):
+      # what the sampler depends on from outside: the dataset / the stream (methods reached through self, next(...)) and repository code
+      if not isinstance(x, ast.Call):
+        return False
+      if ff.ext(x.func) == 'builtins.next':
+        return True
+      if isinstance(x.func, ast.Attribute):
+        root = x.func.value
+        while isinstance(root, ast.Attribute):
+          root = root.value
+        if isinstance(root, ast.Name) and root.id == 'self':
+          return True
+      return ff.callee(x).kind == 'func'
     later = [n for n in ff.cfg.nodes if n is not inc and n.ast is not None and ff.cfg.reaches(inc, n) and not ff.cfg.reaches(n, inc) and any(
-        isinstance(x, ast.Call) and (ff.ext(x.func) or '') not in ('builtins.list', 'builtins.zip', 'builtins.tuple', 'builtins.len') for x in n.walk())]
+        may_fail(x) for x in n.walk())]
     check.ob('R-PURE.round-last', mth, 'self._round_num += 1 is the last effect', not later,
              'the round counter is advanced after the cohort has been produced' if not later else
              f'`{txt(later[0].ast)[:60]}` still runs after the round counter has moved: if it raises, the sampler has skipped a round',
